@@ -33,15 +33,16 @@ MANIFEST = dict(
           "Circuit.to_matrix() numerically incl. scalar. COMPOSITION is proved too (C05_circuit): for every sequence of "
           "GATE_TABLE unitaries on any lanes of a register of any size the drawn program acts as one unit phase times the "
           "documented gates applied in order (amplitude-function semantics; placement lemma by naturality of the generated "
-          "gate functions; the two-lane/one-lane dense matrices of the gate theorems are bridged to it by proof); rotations/"
+          "gate functions; the dense interpreter is bridged to it by proof for every number of lanes, C05_circuit_dense); rotations/"
           "U3/T at any lane for every angle. Random compositions on sparse labels with adversarial literals are in addition "
           "validated against the ordered product of documented matrices (search oracle)."),
     note=("Trusted: Coq kernel+vm_compute; translators translate/instructions.py, translate/stim_gates.py; hand model of "
           "the graph-touching primitives (Model/Lane.v: spiders, h, _cx_cz, swap, scalar) pinned by source fingerprints and "
           "validated numerically against pyzx's to_matrix on every run; pyzx tensor contraction is the oracle for to_matrix. "
           "Print Assumptions: closed under the global context for the gate tables; the composition theorems use "
-          "functional_extensionality_dep (stdlib axiom, amplitude functions). Not proved: that the dense n-lane interpreter used by "
-          "the executable circuit model coincides with the amplitude-function semantics for n>2 (same formulas; proved for n=1,2)."),
+          "functional_extensionality_dep (stdlib axiom, amplitude functions). The dense n-lane interpreter of the executable circuit "
+          "model is proved equal to the amplitude-function semantics for every n (C05_circuit_dense states the composition theorem "
+          "about the dense matrix `mat n ops`)."),
     technique="Coq proof by reflection (exponential-polynomial normal form + soundness lemma) over an ast-translated model; trace and matrix correspondence",
     design_ref="DESIGN.md 4.C05",
 )
@@ -51,7 +52,7 @@ COQ_FILES = ["Base/EP.v", "Base/EPSound.v", "Model/Lane.v", "Spec/RotGates.v", "
              "Model/GateCheck.v", "Model/LaneShow.v", "Proofs/GateProofs.v", "Proofs/LaneFingerprints.v", "Base/Amp.v",
              "Proofs/CircuitProofs.v", "Proofs/CircuitTheorem.v", "Spec/Born.v", "gen/Gen_channel_tables.v", "Model/InstrCheck.v",
              "Model/KrausCheck.v", "Proofs/InstrProofs.v", "Proofs/BitIdx.v", "Proofs/DenseBridge.v", "Proofs/KrausSem.v", "Proofs/KrausLocal.v",
-             "Proofs/KrausTheorem.v", "Proofs/KrausGates.v", "Proofs/KrausCircuit.v", "Props/C05.v"]
+             "Proofs/KrausTheorem.v", "Proofs/KrausGates.v", "Proofs/KrausFeedback.v", "Proofs/KrausCircuit.v", "Props/C05.v"]
 IMPORTS = ("From Coq Require Import ZArith List QArith String. Import ListNotations.\n"
            "Require Import TV.Base.EP TV.Model.Lane TV.Spec.RotGates TV.gen.Gen_instructions TV.gen.Gen_stim_gates TV.Model.GateCheck TV.Model.LaneShow.\n")
 
